@@ -62,6 +62,8 @@ inductive Expr where
   | while (c b : Expr)
   | forRange (x : String) (lo hi b : Expr)
   | forLoop (x : String) (i hi : Int) (b : Expr)         -- internal: the running range loop
+  | forEach (x : String) (coll b : Expr)                 -- `for x in coll` over an Array / Vec
+  | forEachLoop (x : String) (addr i fin : Nat) (b : Expr) -- internal: the running collection loop
   | brk | cont
   | ret (e : Option Expr)
   | index (a i : Expr)
@@ -203,6 +205,7 @@ partial def readExpr (s : Sexp) : Except String Expr :=
   | list [atom "while", c, b] => do .ok (.while (← readExpr c) (← readExpr b))
   | list [atom "for", atom x, lo, hi, b] => do
     .ok (.forRange x (← readExpr lo) (← readExpr hi) (← readExpr b))
+  | list [atom "foreach", atom x, c, b] => do .ok (.forEach x (← readExpr c) (← readExpr b))
   | list [atom "break"] => .ok .brk
   | list [atom "continue"] => .ok .cont
   | list [atom "return"] => .ok (.ret none)
